@@ -302,6 +302,105 @@ def fam_debug_views(c, N, sz, with_invalid=False):
     return out
 
 
+# ---------------------------------------------------------------- wider capacities
+
+WIDE_E = [9, 10, 11, 12, 13, 15, 17, 31, 32, 33, 65, 100, 128, 255, 256, 257]
+WIDE_U8 = [9, 12, 15, 17, 32, 33, 100, 255, 256, 257, 4096]
+
+
+def wide_layouts(N, r, k=6):
+    """edge layouts plus k random ones: (start, size)"""
+    edge = {(0, 0), (0, N), (N - 1, N), (N - 1, 1), (1, N - 1), (N // 2, N // 2), (N // 2, N - N // 2 + 1),
+            (N - 3, 5), (3, N - 3), (N - 1, 0), (N // 2 + 1, N), (1, N - 2)}
+    out = [(st % N, min(max(sz, 0), N)) for (st, sz) in edge]
+    for _ in range(k):
+        out.append((r.below(N), r.below(N + 1)))
+    seen, res = set(), []
+    for x in out:
+        if x not in seen:
+            seen.add(x)
+            res.append(x)
+    return res
+
+
+def sparse(N, sz, r, extra=2):
+    s = {0, 1, 2, sz // 2, max(sz - 2, 0), max(sz - 1, 0), sz, sz + 1, N - 1, N, N + 1, MAX - 1, MAX}
+    for _ in range(extra):
+        s.add(r.below(N + 2))
+    return sorted(x for x in s if 0 <= x <= MAX)
+
+
+def sparse_ranges(sz, r, extra=3):
+    pts = sorted({0, 1, sz // 3, sz // 2, max(sz - 1, 0), sz})
+    out = [(a, b) for a in pts for b in pts if a <= b]
+    for _ in range(extra):
+        a = r.below(sz + 1)
+        out.append((a, a + r.below(sz - a + 1)))
+    return sorted(set(out))
+
+
+def wide_ops(c, N, sz, r, kind):
+    """single operations with sparse, boundary-biased arguments for a large capacity"""
+    out = []
+    I = sparse(N, sz, r)
+    lens = sorted({0, 1, 2, max(N - sz - 1, 0), N - sz, N - sz + 1, N - 1, N, N + 1, min(2 * N + 1, 600)})
+    if kind in ("mut", "all"):
+        out += fam_push(c, N, sz) + fam_pop(c, N, sz) + ["clear", "make_contiguous -"]
+        for i in I:
+            out += ["remove %d" % i, "swap_remove_back %d" % i, "swap_remove_front %d" % i,
+                    "truncate_back %d" % i, "truncate_front %d" % i]
+        J = [0, sz // 2, max(sz - 1, 0), sz]
+        out += ["swap %d %d" % (i, j) for i in J for j in J]
+        for m in lens:
+            out += ["extend " + c.es(m), "extend_from_slice " + c.es(m)]
+        if N <= 128:
+            out += ["fill " + c.e(), "fill_with", "fill_spare " + c.e(), "fill_spare_with"]
+    if kind in ("drain", "mut", "all"):
+        for (a, b) in sparse_ranges(sz, r):
+            L = b - a
+            for scr in ("-", "n", "b", "n,b,l", ",".join("n" * min(L, 3)) or "-", ",".join("b" * min(L + 1, 4))):
+                out.append("drain i%d e%d %s drop" % (a, b, scr))
+    if kind in ("view", "all"):
+        out += ["front", "back", "as_slices", "to_vec", "debug", "hash", "len", "is_full", "clone_keep",
+                "iter n,n,n,b,b,l,c", "iter_mut n,b,n,l", "into_iter n,b,n,l", "as_mut_slices -"]
+        for i in I:
+            out += ["get %d" % i, "nth_back %d" % i, "index %d" % i, "get_mut %d %s" % (i, c.e()),
+                    "nth_back_mut %d %s" % (i, c.e())]
+        for (a, b) in sparse_ranges(sz, r, 2):
+            out += ["range i%d e%d n,b,l,n,b" % (a, b), "range_mut i%d e%d n,sb=%s,l,b" % (a, b, c.e()),
+                    "iter_debug i%d e%d n" % (a, b)]
+    return out
+
+
+def wide_io(c, N, sz, r, fams=("std",)):
+    out = []
+    lens = sorted({0, 1, 2, max(N - sz - 1, 0), N - sz, N - sz + 1, N - 1, N, N + 1, min(2 * N + 1, 700)})
+    for fam in fams:
+        out += ["write %s %s" % (fam, c.es(m)) for m in lens]
+        out += ["read %s %s" % (fam, c.es(m)) for m in sorted({0, 1, sz - 1 if sz else 0, sz, sz + 1, min(N + 2, 700)})]
+        out += ["fill_buf " + fam, "flush " + fam]
+        out += ["consume %s %d" % (fam, k) for k in sorted({0, 1, sz // 2, max(sz - 1, 0), sz, sz + 1, N + 2, MAX})]
+    out += ["extend_ref " + c.es(m) for m in (1, N - sz + 1)]
+    return out
+
+
+def wide_cases(g, Ns, kind, elem="E", fault="none", suffix=("new",), layouts_per_n=6, junk=3, fams=("std",), every=1):
+    """one case per (capacity, layout, operation); [every] > 1 keeps a seeded subsample"""
+    r = g.rng
+    for N in Ns:
+        for (st, sz) in wide_layouts(N, r, layouts_per_n):
+            vals = [((7 * i + 3) % 251) for i in range(sz)] if elem == "u8" else default_vals(sz)
+            probe = Case(0, N, st, vals, elem=elem)
+            mk = (lambda c: wide_io(c, N, sz, Rng(N * 1000 + st * 7 + sz), fams)) if kind == "io" else \
+                 (lambda c: wide_ops(c, N, sz, Rng(N * 1000 + st * 7 + sz), kind))
+            n = len(mk(probe))
+            for k in range(n):
+                if every > 1 and not r.chance(1, every):
+                    continue
+                c = g.new(N, st, vals, junk=junk, fault=fault, elem=elem, tag="wide")
+                c.ops = [mk(c)[k]] + list(suffix)
+
+
 def other_buf(c, M, st, vals, junk=3, idbase=900):
     els = ",".join("%d:%d" % (idbase + i, v) for i, v in enumerate(vals)) if vals else "-"
     return "%d;%d;%s;%d" % (M, st, els, junk)
